@@ -102,14 +102,14 @@ Section Complete.
   Lemma in_key_exists k fs : (exists f, In f fs /\ fkey f = k) -> existsb (fun f => key_eqb (fkey f) k) fs = true.
   Proof. intros [f [Hf Hk]]. apply existsb_exists. exists f. split; [exact Hf|apply key_eqb_eq; exact Hk]. Qed.
 
-  Theorem nodes_complete_model o d : nodes_complete d (convert o d) = true.
+  Theorem nodes_complete_model o d : key_clash d = false -> nodes_complete d (convert o d) = true.
   Proof.
-    unfold nodes_complete. apply forallb_forall. intros n Hn.
+    intros Hclash. unfold nodes_complete. apply forallb_forall. intros n Hn.
     destruct (spec_node_rule d n) eqn:E; [|reflexivity]. apply spec_node_rule_iff in E. destruct E as [Hl Hr].
     apply in_key_exists. exists (node_point o d n). split; [|reflexivity].
     unfold Model.convert. apply in_or_app. right. apply in_or_app. right.
     unfold node_features. apply in_flat_map. exists n. split; [exact Hn|].
-    apply (node_emitted_spec o) in Hr. rewrite Hr. unfold node_feature.
+    apply (node_emitted_spec o d n Hclash Hn) in Hr. rewrite Hr. unfold node_feature.
     apply node_located_spec in Hl. rewrite Hl. left. reflexivity.
   Qed.
 
@@ -135,9 +135,10 @@ Section Complete.
     - unfold is_route in Hrt. unfold rel_result in Hf. rewrite Hrt in Hf. exact (route_result_key join o d r f Hf).
   Qed.
   Theorem oracle_completeness_sound o d :
+    key_clash d = false ->
     nodes_complete d (convert o d) = true /\ ways_complete d (convert o d) = true /\
     routes_complete d (convert o d) = true.
-  Proof. split; [apply nodes_complete_model|split; [apply ways_complete_model|apply routes_complete_model]]. Qed.
+  Proof. intros Hclash. split; [apply nodes_complete_model; exact Hclash|split; [apply ways_complete_model|apply routes_complete_model]]. Qed.
 End Complete.
 
 Lemma is_mp_is_relation_polygon r :
